@@ -86,14 +86,14 @@ def canon_dump(d):
 def gen_world(rng, flavour, tiny=False, allow_running=True, force=None):
     """A small cluster + workload state + scheduler configuration (JSON for harness/impl/tetri.py)."""
     force = force or {}
-    now = rng.choice([0, 0, 1, 3, 6])
-    disc = force.get("disc", rng.choice([1, 1, 2, 3]))
+    now = rng.choice([0, 1, 3] if tiny else [0, 0, 1, 3, 4, 7])          # also times that are not multiples of the discretisation
+    disc = force.get("disc", rng.choice([1, 1, 2, 3, 5]))
     release_tg = flavour == "gurobi" and rng.random() < 0.5
     if "release_tg" in force:
         release_tg = force["release_tg"] and flavour == "gurobi"
     cfg = {"flavour": flavour, "enforce": force.get("enforce", rng.random() < 0.7),
            "retract": force.get("retract", rng.random() < 0.5), "disc": disc, "release_tg": release_tg,
-           "plan_ahead": rng.choice([-1, -1, -1, rng.randint(2, 10)])}
+           "plan_ahead": rng.choice([-1, -1, -1, rng.randint(2, 7 if tiny else 10)])}
     nw = rng.choice([1, 1, 2] if tiny else [1, 2, 2, 3])
     workers = []
     for i in range(nw):
@@ -105,9 +105,25 @@ def gen_world(rng, flavour, tiny=False, allow_running=True, force=None):
             res.append(["GPU", 0])
         if rng.random() < 0.15:
             res.reverse()
+        if rng.random() < 0.3:
+            # the capacity of one resource NAME split over several entries with distinct ids (GPU:u0 = 1, GPU:u1 = 1, ...)
+            split = []
+            for e in res:
+                if e[1] >= 2 and rng.random() < 0.8:
+                    a = rng.randint(1, e[1] - 1)
+                    split += [[e[0], a, "u0"], [e[0], e[1] - a, "u1"]]
+                elif e[1] == 1 and rng.random() < 0.5:
+                    split += [[e[0], 1, "u0"], [e[0], 1, "u1"]]
+                else:
+                    split.append(e)
+            res = split
         workers.append({"name": "W%d" % (i + 1), "res": res})
     pools = [workers] if (nw == 1 or rng.random() < 0.5) else [workers[:1], workers[1:]]
-    avail = {w["name"]: dict(w["res"]) for w in workers}
+    avail = {}
+    for w in workers:
+        avail[w["name"]] = {}
+        for e in w["res"]:
+            avail[w["name"]][e[0]] = avail[w["name"]].get(e[0], 0) + e[1]
 
     def strat():
         rt = rng.choice([1, 2, 2, 3, 4, 5, 7])
@@ -115,7 +131,7 @@ def gen_world(rng, flavour, tiny=False, allow_running=True, force=None):
         if r < 0.6:
             req = [["CPU", rng.choice([1, 1, 2])]]
         elif r < 0.8:
-            req = [["GPU", 1]]
+            req = [["GPU", rng.choice([1, 1, 2])]]
         elif r < 0.95:
             req = [["CPU", 1], ["GPU", 1]]
         else:
@@ -170,7 +186,9 @@ def gen_world(rng, flavour, tiny=False, allow_running=True, force=None):
                 st = "scheduled"
             if st == "completed" and not edges[x]:
                 st = "released"
-            t["deadline"] = max(0, now + rng.choice([-2, 0, 1, 2, 3, 4, 5, 6, 8, 10, 12]))
+            t["deadline"] = max(0, now + rng.choice([-1, 1, 2, 3, 4, 5, 6] if tiny else [-2, 0, 1, 2, 3, 4, 5, 6, 8, 10, 12]))
+            if rng.random() < 0.2:
+                t["deadline"] = now + min(s_[0] for s_ in ss) + rng.choice([0, 0, 1])      # zero / small slack
             if force.get("sched_fast_parent"):
                 t["deadline"] = now + rng.choice([8, 10, 12])
             if st in ("released", "scheduled", "running", "completed"):
@@ -315,6 +333,7 @@ def generate(ctx, n_gurobi, n_cplex, tiny=False, allow_running=True, force=None)
 
 def stream_csys(ctx, worlds, results, tag="S-csys"):
     """gen_tetri(instance) against the live model; returns indices of the cases that took part."""
+    live_checks(ctx, worlds, results)
     cases = []
     idx = []
     for i, (w, r) in enumerate(zip(worlds, results)):
@@ -394,6 +413,145 @@ def monitor_plans(ctx, worlds, results, tag, fn, what, skip=None, probe_kinds=No
     return len(cases)
 
 
+def py_live_checks(inst, dump):
+    """Independent of the Coq model and of the formulation's helpers: the live model was built from the time schedule() was
+    invoked at, every time index of it is an allowed slot now + k*d, and the constant of every capacity row is the worker's
+    TRUE total of that resource name minus what the running tasks hold."""
+    now, d = inst["now"], inst["disc"]
+    if inst.get("impl_now", now) != now:
+        return "schedule() was invoked at %d but built its model from time %d" % (now, inst["impl_now"])
+    times = set()
+    for k, _, _, _ in dump["vars"]:
+        if k[0] in (0, 1, 2, 3):
+            times.add(k[3] if k[0] == 0 else k[2])
+    for r in dump["rows"]:
+        if r[1][0] == 12:
+            times.add(r[1][3])
+    off = sorted(t for t in times if t < now or (t - now) % d != 0)
+    if off:
+        return "the live model has variables/rows at times %s that are not allowed slots %d + k*%d" % (off[:4], now, d)
+    total = {w["idx"]: dict(w["total"]) for w in inst["workers"]}
+    for r in dump["rows"]:
+        if r[0] == 0 and r[1][0] == 12:
+            _, rid, widx, t = r[1]
+            const = 0
+            for x in inst["tasks"]:
+                st = x["state"]
+                if st[0] == "running" and st[1] == widx and now <= t < now + st[2][0]:
+                    const += dict(st[2][1]).get(rid, 0)
+            want = total.get(widx, {}).get(rid, 0) - const
+            if r[4] != want:
+                return ("capacity row of worker %d, resource %s at time %d has constant %d but the worker's total of that resource "
+                        "name is %d (running tasks hold %d)" % (widx, RES[rid], t, r[4], total.get(widx, {}).get(rid, 0), const))
+    return None
+
+
+def max_hyp_py(inst):
+    return (not has_running(inst) and all(t["nparents"] == len(t["parents"]) for t in inst["tasks"])
+            and all(s[0] > 0 for t in inst["tasks"] for s in t["strats"]))
+
+
+def py_maximal(inst, exp):
+    """Python twin of TetriModel.maximal_okb: a rewarded task left out although it can be added at an allowed slot
+    now + k*d on some worker with some strategy (half-open occupation at slot times, child >= parent start + slowest + 1)."""
+    if not max_hyp_py(inst):
+        return None
+    now, d = inst["now"], inst["disc"]
+    h = inst["plan_ahead"] if inst["plan_ahead"] != -1 else max([t["deadline"] for t in inst["tasks"]] + [-1])
+    slots = list(range(now, now + h + 1, d))
+    placed = {i: p for i, p in exp if p}
+    total = {w["idx"]: dict(w["total"]) for w in inst["workers"]}
+    occ = [(p[0], p[2], p[2] + inst["tasks"][i]["strats"][p[1]][0], dict(inst["tasks"][i]["strats"][p[1]][1])) for i, p in placed.items()]
+    for i, t in enumerate(inst["tasks"]):
+        if i in placed or not (t["sink"] or not inst["release_tg"] or inst["flavour"] == "cplex"):
+            continue
+        lo = max([now, t["release"]])
+        ok_par = True
+        if inst["flavour"] == "gurobi":
+            for q in t["parents"]:
+                if q not in placed:
+                    ok_par = False
+                    break
+                lo = max(lo, placed[q][2] + max(s[0] for s in inst["tasks"][q]["strats"]) + 1)
+        if not ok_par:
+            continue
+        for w in inst["workers"]:
+            for si, s in enumerate(t["strats"]):
+                if any(q > total[w["idx"]].get(r, 0) for r, q in s[1]):
+                    continue
+                for st in slots:
+                    if st < lo or (inst["enforce"] and st + s[0] > t["deadline"]):
+                        continue
+                    fits = True
+                    for tau in slots:
+                        if not (st <= tau < st + s[0]):
+                            continue
+                        for r, q in s[1]:
+                            load = q + sum(req.get(r, 0) for (w_, a, b, req) in occ if w_ == w["idx"] and a <= tau < b)
+                            if load > total[w["idx"]].get(r, 0):
+                                fits = False
+                    if fits:
+                        return ("task %s is left out although it can be added on worker %d at slot %d with strategy %d "
+                                "(runtime %d, deadline %d)" % (t["name"], w["idx"], st, si, s[0], t["deadline"]))
+    return None
+
+
+def monitor_hopeless(ctx, worlds, results):
+    """Answers to offered tasks under enforce_deadlines, by the documented rule with the TRUE invocation time: a hopeless task
+    (deadline < now + fastest) is not placed, CPLEX cancels it and nothing else, Gurobi never cancels."""
+    cases, where, pybad = [], [], []
+    for i, (w, r) in enumerate(zip(worlds, results)):
+        if r.get("placements") is None or r.get("error") or not w["cfg"]["enforce"]:
+            continue
+        now = w["now"]
+        offered = {t["name"] + "@" + g["name"]: t for g in w["graphs"] for t in g["tasks"]}
+        for p in r["placements"]:
+            t = offered[p["task"]]
+            fastest = min(s[0] for s in t["strats"])
+            cancelled = p["type"] == "CANCEL_TASK"
+            cplex = w["cfg"]["flavour"] == "cplex"
+            cases.append("(%s, %s, %s, %s, %s, %s)" % (gz(t["deadline"]), gz(now), gz(fastest), gbool(bool(p["placed"])),
+                                                       gbool(cancelled), gbool(cplex)))
+            where.append((i, p["task"]))
+            hp = t["deadline"] < now + fastest
+            if (hp and p["placed"]) or (cancelled != hp if cplex else cancelled):
+                pybad.append((i, p["task"]))
+    what = ("a hopeless task (deadline < now + fastest runtime) was placed / not cancelled by the CPLEX admission control, or a task "
+            "that is not hopeless was cancelled")
+    if not cases:
+        return
+    try:
+        bad = ctx.monitor_stream("M-hopeless", HEADER, "Z * Z * Z * bool * bool * bool",
+                                 "(fun q => match q with (d, n, f, placed, cancelled, cplex) => hopeless_answer_okb d n f placed cancelled cplex end)",
+                                 cases, shard=200)
+        for b in bad[:3]:
+            i, name = where[b]
+            ctx.violation("hopeless%d" % i, {"stream": "M-hopeless", "world": worlds[i], "task": name,
+                                             "placements": results[i]["placements"], "what": what})
+    except core.ModelEvalError as e:
+        ctx.broken.append({"kind": "monitor", "name": "M-hopeless", "detail": str(e)[-800:]})
+        for i, name in pybad[:3]:
+            ctx.violation("hopeless%d" % i, {"stream": "M-hopeless(python)", "world": worlds[i], "task": name,
+                                             "placements": results[i]["placements"], "what": what})
+
+
+def live_checks(ctx, worlds, results):
+    """py_live_checks on every captured model (always, whatever the state of the Coq side)."""
+    n = 0
+    for i, (w, r) in enumerate(zip(worlds, results)):
+        if "inst" not in r or "dump" not in r:
+            continue
+        msg = py_live_checks(r["inst"], r["dump"])
+        if msg:
+            n += 1
+            if n <= 3:
+                ctx.violation("live%d" % i, {"stream": "live-model checks (python)", "world": w, "instance": r["inst"],
+                                             "placements": r.get("placements"), "what": msg})
+    st = ctx.cov["streams"].setdefault("live-model checks", {"cases": 0, "failing": 0})
+    st["cases"] += sum(1 for r in results if "dump" in r)
+    st["failing"] += n
+
+
 def monitor_wf(ctx, worlds, results):
     """The hypotheses of the theorems (wf_inst, decided by wf_instb) hold of every instance the implementation built."""
     cases = []
@@ -416,7 +574,7 @@ def monitor_wf(ctx, worlds, results):
         ctx.broken.append({"kind": "monitor", "name": "M-wf", "detail": str(e)[-800:]})
 
 
-def py_monitor_fallback(ctx, worlds, results):
+def py_monitor_fallback(ctx, worlds, results, maximal=False):
     """Pure-Python search for a failing input, used when the Coq side is broken: joint capacity at every
     integer instant, deadlines, precedence (chosen runtime), start >= now, one answer per task — on the solver's own
     answer and on every adversarial probe of the live model."""
@@ -427,8 +585,10 @@ def py_monitor_fallback(ctx, worlds, results):
                 ctx.violation("py%d" % i, {"stream": "python-fallback", "world": worlds[i], "instance": r["inst"],
                                            "placements": r["placements"], "what": err})
                 return True
-    for i, inst, exp, origin in all_plans_of(results):
+    for i, inst, exp, origin in all_plans_of(results, probe_kinds=(["c14"] if maximal else None)):
         msg = py_check_exp(inst, exp)
+        if not msg and maximal:
+            msg = py_maximal(inst, exp)
         if msg:
             ctx.violation("py%d" % i, {"stream": "python-fallback", "world": worlds[i], "instance": inst, "origin": origin,
                                        "plan [task, [worker, strategy, start]]": exp,
